@@ -63,6 +63,8 @@ class RuleContext:
         self.exhaustive_spaces: list[str] = []
         self.floors: list[tuple] = []
         self.extra: dict = {}
+        self._seen_keys: set = set()
+        self.duplicates = 0
 
     # -- registration
     def rule(self, rid: str, text: str):
@@ -97,6 +99,12 @@ class RuleContext:
         status = "discharged" if ok is True else ("violated" if ok is False else "undecidable")
         o = Obligation(rule, rel, qual, line, norm_src(construct if construct is not None else node), status,
                        " ".join(str(explanation).split()), nontrivial, detail)
+        k = (o.rule, o.file, o.qualname, o.construct, o.status)
+        if k in self._seen_keys:
+            # the same construct reached again (e.g. an inherited method analysed for a subclass)
+            self.duplicates += 1
+            return o
+        self._seen_keys.add(k)
         self.obligations.append(o)
         return o
 
@@ -190,6 +198,7 @@ def finish(ctx: RuleContext, t0: float, error: str | None = None, evidence_dir=N
             "functions_analysed": sorted(ctx.analysed_functions),
             "n_functions_analysed": len(ctx.analysed_functions),
             "events_inspected": ctx.events_seen,
+            "duplicate_obligations_merged": ctx.duplicates,
             "floors": [{"rule": r, "what": w, "found": f, "minimum": m} for r, w, f, m in ctx.floors],
             "trusted_base": ctx.trusted,
             "known_findings_reported": [o.as_json() for o, _ in known_hit],
